@@ -7,6 +7,24 @@ ids = [json.loads(l)["id"] for l in open(root + "/properties.jsonl")]
 
 # id -> (technique, level text, level note, design ref)
 CHECKS = {
+    "C01": (
+        "property-based testing (proptest): structured (H, LLR, limit) generator x all 36 factory-built decoders; validity-predicate oracle (own syndrome, iteration-count clauses)",
+        "Generated-input search with an independent validity predicate over the returned Result; panics are caught and reported with the input. Exploration only.",
+        "Trusts the harness's own syndrome computation and null-space (bitset elimination) used to construct noisy codewords; LLR magnitudes are bounded by 1e30 as the property states.",
+        "DESIGN.md §4 C01",
+    ),
+    "C10": (
+        "stateful/differential property testing (proptest-generated call histories; long-lived decoder vs freshly built decoder after every call)",
+        "Every call of a generated history on one decoder object is compared for exact equality with the same call on a fresh decoder, for all 36 names. Exploration only.",
+        "Trusts DecoderImplementation::build_decoder(H.clone()) on the same tree as the definition of 'fresh'.",
+        "DESIGN.md §4 C10",
+    ),
+    "C18": (
+        "exhaustive enumeration of the 36 names + differential property testing (factory-built vs directly constructed generic decoder) on a separating input family; generated non-member strings for rejection",
+        "Names: exhaustive. Behaviour: differential on generated inputs, with the set of implementation pairs actually separated by the inputs measured and reported (630/630 in the quick tier). Exploration only.",
+        "Trusts the harness's own list of the 36 documented names and the derivation 'HL prefix = layered, remainder = arithmetic type'.",
+        "DESIGN.md §4 C18",
+    ),
     "C08": (
         "property-based testing (proptest): round-trip + own strict alist reader as oracle; mutation-based text generation for parser totality; libFuzzer campaign in the thorough tier",
         "Generated-input search: every generated matrix is written in both alist forms, validated by an independent strict reader and parsed back; every generated/mutated text must be answered with Ok or Err (panics are caught and reported). Exploration only: holds on everything generated, no proof of absence.",
